@@ -13,6 +13,7 @@ from __future__ import annotations
 
 import io
 import itertools
+import warnings
 from datetime import date, datetime
 from decimal import Decimal
 from fractions import Fraction
@@ -326,6 +327,91 @@ def unit_words(unit):
                     agg.violation(V("Vector.schema", "constructor-raises-" + type(e).__name__, {"word": list(w), "values": vals}))
     if agg.evals:
         agg.sample({"word": list(w), "expected": fmt(sp)})
+    return agg
+
+
+class IntSub(int):
+    pass
+
+
+class FloatSub(float):
+    pass
+
+
+class StrSub(str):
+    pass
+
+
+class DateSub(date):
+    pass
+
+
+class TupleSub(tuple):
+    pass
+
+
+import enum as _enum
+
+
+class Colour(_enum.IntEnum):
+    RED = 3
+    BLUE = 4
+
+
+def unit_subclasses(unit):
+    """subclasses of the ladder kinds (an int subclass, an IntEnum member, float / str / date / tuple subclasses) next to plain
+    values: whatever kind such a value counts as, "never on element order" - every permutation of a word of <= 3 elements is typed
+    alike, by inference, by the Vector constructor and by a chain of promote_with steps, and promote_with steps commute"""
+    from serif import Vector
+    from serif.typing import infer_dtype, DataType
+    agg = Agg()
+    pool = {"None": None, "bool": True, "int": 5, "float": 2.5, "str": "a", "date": date(2020, 1, 2), "datetime": datetime(2020, 1, 2, 3), "tuple": (1, 2),
+            "IntSub": IntSub(3), "IntEnum": Colour.RED, "FloatSub": FloatSub(1.5), "StrSub": StrSub("b"), "DateSub": DateSub(2021, 3, 4), "TupleSub": TupleSub((3,))}
+    subs = ("IntSub", "IntEnum", "FloatSub", "StrSub", "DateSub", "TupleSub")
+    for n in (2, 3):
+        for word in itertools.combinations_with_replacement(sorted(pool), n):
+            if not any(w in subs for w in word):
+                continue
+            agg.states += 1; agg.nontrivial += 1
+            seen = {}
+            for perm in set(itertools.permutations(word)):
+                vals = [pool[w] for w in perm]
+                agg.evals += 1; agg.transitions += 2; agg.compared += 2
+                with warnings.catch_warnings():
+                    warnings.simplefilter("ignore")
+                    got = safe_infer(vals)
+                    try:
+                        sv = dt_pair(Vector(list(vals)).schema())
+                    except Exception as e:
+                        sv = (Raised(e), False)
+                seen.setdefault((fmt(got), fmt(sv)), []).append(list(perm))
+            if len(seen) > 1:
+                (k1, p1), (k2, p2) = list(seen.items())[:2]
+                agg.violation(V("infer_dtype.subclasses", "dtype-depends-on-element-order", {"types": list(word), "order_1": p1[0], "order_2": p2[0]}, k1, k2,
+                                py="from serif import Vector\n# the same values in two orders are typed differently"))
+            elif any(a != b for a, b in seen):
+                agg.violation(V("infer_dtype.subclasses", "constructor-and-inference-disagree", {"types": list(word)}, None, list(seen)))
+            else:
+                agg.outcomes["agree-order-independent"] += 1
+    # promote_with steps commute from every ladder state
+    for k in (bool, int, float, complex, str, date, datetime, tuple, object):
+        for nl in (False, True):
+            for a, b in itertools.combinations(sorted(pool), 2):
+                if a not in subs and b not in subs:
+                    continue
+                agg.evals += 1; agg.transitions += 4; agg.compared += 1; agg.states += 1
+                with warnings.catch_warnings():
+                    warnings.simplefilter("ignore")
+                    try:
+                        d1 = dt_pair(DataType(k, nl).promote_with(pool[a]).promote_with(pool[b]))
+                        d2 = dt_pair(DataType(k, nl).promote_with(pool[b]).promote_with(pool[a]))
+                    except Exception as e:
+                        agg.violation(V("promote_with.subclasses", "raises-" + type(e).__name__, {"state": fmt((k, nl)), "values": [a, b]}))
+                        continue
+                if d1 != d2:
+                    agg.violation(V("promote_with.subclasses", "promotion-steps-do-not-commute", {"state": fmt((k, nl)), "values": [a, b]}, fmt(d1), fmt(d2)))
+                else:
+                    agg.outcomes["agree-order-independent"] += 1
     return agg
 
 
@@ -691,6 +777,7 @@ def check(ctx):
     tunits = [("arith", o) for o in OPS] + [("join",), ("agg",), ("csv",), ("assign",)]
     parts += core.pmap(unit_typed, tunits)
     parts += core.pmap(unit_long_words, [("long", a) for a in SYMS])
+    parts += core.pmap(unit_subclasses, [("subclasses",)])
     for p in parts:
         agg.merge(p)
     agg.notes["bound"] = f"automaton: all DataType states x {len(SYMS)} symbols x {len(SYMS)} symbols; words: every word of length <= {maxlen} x 2 representatives"
